@@ -838,6 +838,10 @@ class Interp:
         if isinstance(f, (types.MethodDescriptorType, types.WrapperDescriptorType)) and isinstance(getattr(f, "__objclass__", None), type) \
                 and issubclass(f.__objclass__, BaseException):
             return f(*args, **kwargs)  # exception constructors only store their arguments
+        if isinstance(f, (types.MethodDescriptorType, types.WrapperDescriptorType)) and f.__objclass__ in (dict, set, frozenset) and args \
+                and isinstance(args[0], f.__objclass__):
+            # unbound C-level container method: dict.setdefault(self, key, default)
+            return self.dict_native(args[0], f.__name__, args[1:], kwargs, lambda *a, **k: f(args[0], *a, **k))
         if recv is None or isinstance(recv, types.ModuleType):
             nm = getattr(f, "__name__", "")
             if f in (builtins.print, builtins.id, builtins.enumerate, builtins.zip, builtins.reversed, builtins.next, builtins.getattr, builtins.setattr, builtins.hasattr, builtins.callable, builtins.map, builtins.filter):
